@@ -3,14 +3,37 @@
 import json, os, re
 V = os.path.dirname(os.path.dirname(os.path.abspath(__file__)))
 P = os.path.join(V, "lean", "Simfile", "Props")
+# property theorems that live in their own module: the msdparser contract (discharges the hypothesis of C01/C02/C04)
+# and the strict/lenient tokenizer theorems (C03's last clause)
+EXTRA = {"C01": ["MsdContract"], "C03": ["MsdLenient"]}
+
+
+def theorems_of(fn):
+    text = open(os.path.join(P, fn), encoding="utf-8").read()
+    ns = []
+    names = []
+    for line in text.split("\n"):
+        mm = re.match(r"\s*namespace\s+(\S+)", line)
+        if mm: ns.append(mm.group(1)); continue
+        mm = re.match(r"\s*end\s+(\S+)", line)
+        if mm and ns and ns[-1].split(".")[-1] == mm.group(1).split(".")[-1]: ns.pop(); continue
+        mm = re.match(r"\s*(?:protected\s+)?theorem\s+(\S+)", line)      # private theorems are not auditable by name
+        if mm: names.append(".".join(ns + [mm.group(1)]))
+    return names
+
+
 idx = {}
 for fn in sorted(os.listdir(P)):
     m = re.match(r"(C\d+)\.lean$", fn)
     if not m: continue
     pid = m.group(1)
-    text = open(os.path.join(P, fn), encoding="utf-8").read()
+    names = theorems_of(fn)
+    extra = [e for e in EXTRA.get(pid, []) if os.path.exists(os.path.join(P, e + ".lean"))]
+    for e in extra: names += theorems_of(e + ".lean")
+    idx[pid] = {"module": "Simfile.Props." + pid, "extra_modules": ["Simfile.Props." + e for e in extra], "theorems": names}
+    continue
+    text = ""
     ns = []
-    names = []
     for line in text.split("\n"):
         mm = re.match(r"\s*namespace\s+(\S+)", line)
         if mm: ns.append(mm.group(1)); continue
